@@ -177,6 +177,155 @@ func progInitCode(p []int) []byte {
 	return append(c, 0x60, 0x01, 0x60, 0x00, 0xf3)
 }
 
+// ---------------------------------------------------------------------------------------------
+// Factory family: fixed contracts that do nothing but one CREATE or CREATE2 (endowment 1) with a given
+// init code, and wrappers that CALL such a factory with all gas. They are called with large gas limits;
+// for the direct calls the exact gas figure is computed from the gas schedule (factoryGas).
+
+const (
+	fCreate = iota
+	fCreate2
+	nFactoryOps
+)
+const (
+	iEmpty  = iota // empty init code: costs nothing, leaves an account without code
+	iDeploy        // PUSH1 1 PUSH1 0 RETURN: deploys a one-byte runtime
+	iBurn          // INVALID: consumes everything it was given
+	iRevert        // PUSH1 0 DUP1 REVERT
+	nFactoryInits
+)
+const nFactories = nFactoryOps * nFactoryInits
+
+var factoryOpNames = []string{"CREATE", "CREATE2"}
+var factoryInitNames = []string{"empty-init", "deploying-init", "burning-init", "reverting-init"}
+
+func factoryName(k int) string {
+	return factoryOpNames[k/nFactoryInits] + "(" + factoryInitNames[k%nFactoryInits] + ")"
+}
+func factoryAddr(k int) common.Address { return fixedAddr("c09-factory", byte(0x40+k)) }
+func wrapperAddr(k int) common.Address { return fixedAddr("c09-factory-wrap", byte(0x60+k)) }
+
+// factoryInit: the init code, and how the factory puts it into memory (prelude, offset, size).
+func factoryInit(init int) (prelude []byte, offset, size byte) {
+	switch init {
+	case iEmpty:
+		return nil, 0, 0
+	case iDeploy:
+		return []byte{0x64, 0x60, 0x01, 0x60, 0x00, 0xf3, 0x60, 0x00, 0x52}, 27, 5 // PUSH5 <init> PUSH1 0 MSTORE
+	case iBurn:
+		return []byte{0x60, 0xfe, 0x60, 0x00, 0x53}, 0, 1 // PUSH1 0xfe PUSH1 0 MSTORE8
+	case iRevert:
+		return []byte{0x63, 0x60, 0x00, 0x80, 0xfd, 0x60, 0x00, 0x52}, 28, 4 // PUSH4 <init> PUSH1 0 MSTORE
+	}
+	panic("bad init")
+}
+
+func factoryCode(k int) []byte {
+	op, init := k/nFactoryInits, k%nFactoryInits
+	c, off, size := factoryInit(init)
+	c = append([]byte{}, c...)
+	if op == fCreate2 {
+		c = append(c, 0x60, 0x2a) // salt
+	}
+	c = append(c, 0x60, size, 0x60, off, 0x60, 0x01) // size offset endowment
+	if op == fCreate {
+		c = append(c, 0xf0)
+	} else {
+		c = append(c, 0xf5)
+	}
+	return append(c, 0x50, 0x00) // POP STOP
+}
+
+func wrapperCode(k int) []byte {
+	c := []byte{0x60, 0, 0x60, 0, 0x60, 0, 0x60, 0, 0x60, 0} // outSize outOff inSize inOff value=0
+	c = append(c, push20(factoryAddr(k))...)
+	return append(c, 0x5a, 0xf1, 0x50, 0x00) // GAS CALL POP STOP
+}
+
+// factoryGas is the checker's own statement of the gas a DIRECT call into factory k consumes inside the KVM
+// (without the intrinsic gas) when it is given `gas`, from the gas schedule of the fork:
+//
+//	PUSHn 3, POP 2, MSTORE/MSTORE8 3 + 3 for the first memory word, CREATE/CREATE2 32000 (+6 per init code word
+//	hashed by CREATE2), RETURN/REVERT 0 + memory, DUP 3, code deposit 200 per byte; an opcode whose price has a
+//	dynamic part is charged its constant part twice under pre-Galaxias rules (historic behaviour of that
+//	interpreter); CREATE hands the init code all but one 64th of the remaining gas. CREATE2 in this code base
+//	hands over everything, the other reading (all but one 64th) only differs for the burning init code, for
+//	which both figures are returned. failed = the factory frame itself ran out of gas (everything consumed).
+func factoryGas(fork, k int, gas uint64) (used []uint64, failed bool) {
+	op, init := k/nFactoryInits, k%nFactoryInits
+	left := gas
+	charge := func(constant, dynamic uint64, hasDynamic bool) bool {
+		cost := constant + dynamic
+		if hasDynamic && fork == 0 {
+			cost += constant
+		}
+		if left < cost {
+			return false
+		}
+		left -= cost
+		return true
+	}
+	fail := func() ([]uint64, bool) { return []uint64{gas}, true }
+	// prelude
+	switch init {
+	case iDeploy, iRevert, iBurn:
+		if !charge(3, 0, false) || !charge(3, 0, false) || !charge(3, 3, true) {
+			return fail()
+		}
+	}
+	pushes := 3
+	if op == fCreate2 {
+		pushes = 4
+	}
+	for i := 0; i < pushes; i++ {
+		if !charge(3, 0, false) {
+			return fail()
+		}
+	}
+	// (this chain's CREATE2 does not charge EIP-1014's 6 gas per hashed init code word: gasCreate2 is the pure
+	// memory price; the schedule of the chain is taken as it is, assumption A7)
+	if !charge(32000, 0, true) {
+		return fail()
+	}
+	// the init code
+	var childCost, deposit uint64
+	childFails := false
+	switch init {
+	case iEmpty:
+	case iDeploy:
+		childCost, deposit = 3+3+3, 200
+	case iBurn:
+		childFails = true
+	case iRevert:
+		childCost = 3 + 3
+	}
+	finish := func(forwarded uint64) (uint64, bool) {
+		l := left - forwarded
+		switch {
+		case childFails || forwarded < childCost || forwarded-childCost < deposit:
+			// init code fails (or cannot pay for its code): everything handed over is gone
+		default:
+			l += forwarded - childCost - deposit
+		}
+		if l < 2 { // POP
+			return gas, true
+		}
+		return gas - (l - 2), false
+	}
+	if op == fCreate {
+		u, f := finish(left - left/64)
+		return []uint64{u}, f
+	}
+	u, f := finish(left)
+	if init == iBurn {
+		u2, f2 := finish(left - left/64)
+		if u2 != u {
+			return []uint64{u, u2}, f && f2
+		}
+	}
+	return []uint64{u}, f
+}
+
 // allPrograms enumerates every action sequence of length 1..maxLen in length-then-lexicographic order.
 func allPrograms(maxLen int) [][]int {
 	var out [][]int
@@ -263,6 +412,10 @@ func buildWorld() *world {
 		g.Alloc[leafAddr(k)] = genesis.GenesisAccount{Balance: big.NewInt(int64(leafBalance + k)), Nonce: 1, Code: progCode([]int{k}),
 			Storage: map[common.Hash]common.Hash{slotOne: slotVal}}
 	}
+	for k := 0; k < nFactories; k++ {
+		g.Alloc[factoryAddr(k)] = genesis.GenesisAccount{Balance: big.NewInt(progBalance), Nonce: 1, Code: factoryCode(k)}
+		g.Alloc[wrapperAddr(k)] = genesis.GenesisAccount{Balance: big.NewInt(progBalance), Nonce: 1, Code: wrapperCode(k)}
+	}
 	// fixed programs used by the block path
 	g.Alloc[addrPB] = genesis.GenesisAccount{Balance: big.NewInt(progBalance), Nonce: 1, Code: progCode(blockProgB),
 		Storage: map[common.Hash]common.Hash{slotOne: slotVal}}
@@ -297,6 +450,10 @@ func buildWorld() *world {
 	name(configs.GenesisDeployerAddr, "genesis-deployer")
 	for k := 0; k < nLeaf; k++ {
 		name(leafAddr(k), "leaf-"+actionNames[k])
+	}
+	for k := 0; k < nFactories; k++ {
+		name(factoryAddr(k), "factory-"+factoryName(k))
+		name(wrapperAddr(k), "wrapper-of-factory-"+factoryName(k))
 	}
 	return wd
 }
